@@ -14,30 +14,30 @@ import (
 // ---------------------------------------------------------------------------
 
 type Opt struct {
-	ID             int
-	Field          string
-	Short          rune
-	Long           string
-	T              TypeSpec
-	Defaults       []string
-	Env            string
-	EnvDelim       string
-	Required       bool
-	Optional       bool
-	OptionalValues []string
-	Choices        []string
-	Base           int
-	NoUnquote      bool
-	Hidden         bool
-	ValueName      string
-	Desc           string
-	DefaultMask    string
-	IniName        string
-	NoIni          bool
-	RawTag         string // if non-empty, used verbatim instead of the rendered tag (C19)
-	CallbackErr     bool  // the callback returns a plain (non-flags) error
-	ProgChoicesFrom int   // >0: choices[ProgChoicesFrom:] are appended to the flags.Option after scanning, the first ones come from tags
-	Prog           bool   // required / choices / hidden / default-mask are set on the flags.Option after scanning, not by tags
+	ID              int
+	Field           string
+	Short           rune
+	Long            string
+	T               TypeSpec
+	Defaults        []string
+	Env             string
+	EnvDelim        string
+	Required        bool
+	Optional        bool
+	OptionalValues  []string
+	Choices         []string
+	Base            int
+	NoUnquote       bool
+	Hidden          bool
+	ValueName       string
+	Desc            string
+	DefaultMask     string
+	IniName         string
+	NoIni           bool
+	RawTag          string // if non-empty, used verbatim instead of the rendered tag (C19)
+	CallbackErr     bool   // the callback returns a plain (non-flags) error
+	ProgChoicesFrom int    // >0: choices[ProgChoicesFrom:] are appended to the flags.Option after scanning, the first ones come from tags
+	Prog            bool   // required / choices / hidden / default-mask are set on the flags.Option after scanning, not by tags
 
 	Grp *Grp
 	Cmd *Cmd
@@ -96,15 +96,30 @@ type PosArg struct {
 	Base  int    // base tag on an integer positional (0 = none)
 	Req   string // required tag text on the field ("" none, "yes", "2", "1-3")
 	Desc  string
-	idx   int
-	Val   reflect.Value
+	// NamedSlice: a rest positional declared with the named slice type StrList instead of []string
+	NamedSlice bool
+	// ExtraLong: a long: tag on the positional field (it must not turn the field into an option)
+	ExtraLong string
+	idx       int
+	Val       reflect.Value
+}
+
+func (a *PosArg) GoType() reflect.Type {
+	if a.NamedSlice {
+		return reflect.TypeOf(StrList(nil))
+	}
+	return a.T.GoType()
 }
 
 type PosDecl struct {
 	Field    string
 	Required bool
 	Args     []*PosArg
-	idx      int
+	// Split > 0: Args[Split:] are declared in a second positional-args struct of the same command
+	// (the positionals of a command are the concatenation of all its positional-args structs)
+	Split int
+	idx   int
+	idx2  int
 }
 
 func (a *PosArg) DisplayName() string {
@@ -314,6 +329,9 @@ func (a *PosArg) Tag() string {
 	if a.Desc != "" {
 		tagKV(&sb, "description", a.Desc)
 	}
+	if a.ExtraLong != "" {
+		tagKV(&sb, "long", a.ExtraLong)
+	}
 	return sb.String()
 }
 
@@ -364,16 +382,25 @@ func (d *Decl) structType(g *Grp, cmd *Cmd) reflect.Type {
 	}
 	if cmd != nil {
 		if cmd.Pos != nil {
-			var pfs []reflect.StructField
+			var pfs, pfs2 []reflect.StructField
 			for i, a := range cmd.Pos.Args {
-				pfs = append(pfs, reflect.StructField{Name: a.Field, Type: a.T.GoType(), Tag: reflect.StructTag(a.Tag())})
-				a.idx = i
+				sf := reflect.StructField{Name: a.Field, Type: a.GoType(), Tag: reflect.StructTag(a.Tag())}
+				if cmd.Pos.Split > 0 && i >= cmd.Pos.Split {
+					a.idx = len(pfs2)
+					pfs2 = append(pfs2, sf)
+				} else {
+					a.idx = len(pfs)
+					pfs = append(pfs, sf)
+				}
 			}
 			tag := `positional-args:"yes"`
 			if cmd.Pos.Required {
 				tag += ` required:"yes"`
 			}
 			cmd.Pos.idx = add(cmd.Pos.Field, reflect.StructOf(pfs), tag)
+			if len(pfs2) > 0 {
+				cmd.Pos.idx2 = add(cmd.Pos.Field+"B", reflect.StructOf(pfs2), tag)
+			}
 		}
 		for _, sc := range cmd.Subs {
 			if !sc.ByTag {
@@ -460,8 +487,12 @@ func (d *Decl) instantiate(g *Grp, cmd *Cmd, sv reflect.Value, log *CallLog, lat
 	if cmd != nil {
 		if cmd.Pos != nil {
 			pv := sv.Field(cmd.Pos.idx)
-			for _, a := range cmd.Pos.Args {
-				a.Val = pv.Field(a.idx)
+			for i, a := range cmd.Pos.Args {
+				if cmd.Pos.Split > 0 && i >= cmd.Pos.Split {
+					a.Val = sv.Field(cmd.Pos.idx2).Field(a.idx)
+				} else {
+					a.Val = pv.Field(a.idx)
+				}
 			}
 		}
 		for _, sc := range cmd.Subs {
@@ -878,9 +909,13 @@ func (d *Decl) Describe() interface{} {
 		if c.Pos != nil {
 			var as []string
 			for _, a := range c.Pos.Args {
-				as = append(as, a.Field+" "+a.T.String()+" `"+a.Tag()+"`")
+				ts := a.T.String()
+				if a.NamedSlice {
+					ts = "StrList (named []string)"
+				}
+				as = append(as, a.Field+" "+ts+" `"+a.Tag()+"`")
 			}
-			m["positional"] = map[string]interface{}{"required": c.Pos.Required, "args": as}
+			m["positional"] = map[string]interface{}{"required": c.Pos.Required, "args": as, "second_struct_from": c.Pos.Split}
 		}
 		var ss []interface{}
 		for _, s := range c.Subs {
